@@ -7,6 +7,7 @@ import PM.Transform
 import Proofs.StepToks
 import Proofs.Undo
 import Proofs.UndoReplace
+import Proofs.MarkupSuccess
 namespace PM.C04
 open PM
 
@@ -634,5 +635,176 @@ theorem nodeMark_undo_needs_guard :
     have hle := List.length_filter_le (· != x) [(⟨2, []⟩ : Mark)]
     simp only [Mark.removeFromSet, List.length_cons, List.length_nil] at hlen hle
     omega
+
+/-! ## The inverse of a node-markup step applies (work package `wk-msuccess`)
+
+The partial theorems above assume that the inverse step applies.  With the success lemmas of
+`Proofs/MarkupSuccess.lean` (the replace of a node-markup step on a valid, normal-form document
+applies iff the parent of the addressed node allows the new mark set) that assumption is discharged:
+the inverse re-creates the original markup, which the parent allowed in the first place. -/
+
+/-- what the forward step of `attr_undo` / `nodeMark_undo` leaves: the document with the addressed
+    node's markup exchanged, still valid and in normal form, the same parent type above `pos` -/
+private theorem after_nodeStep (S : Schema) (ty : TypeId) (a : Attrs) (m : Marks) (K : List Node)
+    (doc' n u1 : Node) (pos : Nat) (attrs1 : Attrs) (marks1 : Marks)
+    (hn : fnorm K = true) (hv : S.checkNode (.elem ty a m K) = true)
+    (hn1 : nodeAtKids K pos = .ok (some n)) (hc1 : canonicalMarks S marks1 = true)
+    (hu1 : S.recreate n attrs1 marks1 = .ok u1)
+    (hr1 : S.fromReplace (.elem ty a m K) pos (pos + 1) ⟨[u1], 0, if n.isLeaf then 0 else 1⟩ = .ok doc') :
+    doc' = .elem ty a m (remarkAt K pos u1) ∧ S.checkNode doc' = true ∧
+      fnorm (remarkAt K pos u1) = true ∧
+      nodeAtKids (remarkAt K pos u1) pos = .ok (some (u1.withKids n.kids)) ∧
+      parentTyAt ty (remarkAt K pos u1) pos = parentTyAt ty K pos ∧
+      (u1.withKids n.kids).isText = false ∧
+      ∃ a1, computeAttrs (S.nodeType n.headTok.ty).attrs attrs1 = .ok a1 ∧
+        (u1.withKids n.kids).headTok.ty = n.headTok.ty ∧ (u1.withKids n.kids).attrs = a1 ∧
+        (u1.withKids n.kids).marks = setFrom marks1 := by
+  obtain ⟨hre, _⟩ := recreate_remarked S n u1 _ _ hu1
+  obtain ⟨hnt1, hnu1, a1, hca1, hh1⟩ := recreate_spec S n u1 _ _ hu1
+  have hfr := fromReplace_node S ty a m K pos n u1 hv hn hn1 hre
+  rw [hr1] at hfr
+  have hd' : doc' = .elem ty a m (remarkAt K pos u1) := by
+    split at hfr
+    · exact Except.ok.inj hfr
+    · cases hfr
+  have hv' : S.checkNode doc' = true := nodeStep_valid S _ doc' n u1 pos _ _ hv hn1 hc1 hu1 hr1
+  obtain ⟨ty', a', m', K0, K', he, hd2, hk1⟩ := fromReplace_elem S _ doc' _ _ _ hr1
+  cases he
+  have hn' := replaceKids_norm S ty K _ _ _ K' hn hnu1 hk1
+  have hKK : K' = remarkAt K pos u1 := by
+    rw [hd2] at hd'; injection hd'
+  rw [hKK] at hn'
+  obtain ⟨_, hat2⟩ := mapNodeAt_spec K pos n hn1 hre
+  obtain ⟨hh2, hnt2, _, _⟩ := hre.withKids_headTok
+  obtain ⟨e1, e2, e3, _⟩ := headTok_eq_remark hnt1 hnt2 (hh2.trans hh1)
+  exact ⟨hd', hv', hn', hat2, parentTyAt_remarkAt K pos n ty hn1 hre, hnt2, a1, hca1, e1, e2, e3⟩
+
+/-- **exact undo of an attribute step naming an attribute the node declares: the inverse applies and
+    restores the document** (valid, normal-form document whose nodes carry computed attribute lists) -/
+theorem attr_undo (S : Schema) (doc doc' : Node) (pos : Nat) (name value : String) (inv : Step)
+    (hn : fnorm doc.kids = true) (hv : S.checkNode doc = true) (ha : attrsOk S doc = true)
+    (h1 : S.apply (.attr pos name value) doc = .ok doc')
+    (hi : S.invert (.attr pos name value) doc = .ok inv) : S.apply inv doc' = .ok doc := by
+  suffices h : ∃ doc'', S.apply inv doc' = .ok doc'' by
+    obtain ⟨doc'', h2⟩ := h
+    rw [h2, attr_undo_partial S doc doc' doc'' pos name value inv hn hv ha h1 hi h2]
+  obtain ⟨n, u1, hn1, hu1, hr1⟩ := apply_attr_parts S doc doc' pos name value h1
+  have hnt := (recreate_spec S n u1 _ _ hu1).1
+  obtain ⟨hcan, hcomp⟩ := node_facts S doc n pos hv ha hn1 hnt
+  obtain ⟨ty, a, m, K, K', rfl, _, _⟩ := fromReplace_elem S doc doc' _ _ _ hr1
+  simp only [Node.kids] at hn
+  obtain ⟨rfl, hv', hn', hat2, _, hnt2, a1, hca1, e1, e2, e3⟩ :=
+    after_nodeStep S ty a m K doc' n u1 pos _ _ hn hv hn1 hcan hu1 hr1
+  simp only [Schema.invert, hn1] at hi
+  cases hf : n.attrs.find? (·.1 == name) with
+  | none => simp [hf] at hi
+  | some q =>
+    obtain ⟨nm, v⟩ := q
+    simp only [hf, Except.ok.injEq] at hi
+    subst hi
+    have hlk : lk n.attrs name = some v := by simp [lk, hf]
+    have hc2 := computeAttrs_undo _ n.attrs a1 name value v hcomp hlk hca1
+    rw [← e1, ← e2] at hc2
+    obtain ⟨u2, hu2⟩ := recreate_total S (u1.withKids n.kids) _ _ (u1.withKids n.kids).marks hnt2 hc2
+    exact ⟨_, attrStep_applies S ty a m _ pos name v _ u2 hv' hn' hat2 hu2⟩
+
+/-- **exact undo of node-mark steps that displace at most one mark: the inverse applies and restores
+    the document** (hypotheses of `nodeMark_undo_partial` minus "the inverse applies") -/
+theorem nodeMark_undo (S : Schema) (doc doc' : Node) (pos : Nat) (m : Mark) (inv : Step) (add : Bool)
+    (hn : fnorm doc.kids = true) (hv : S.checkNode doc = true) (ha : attrsOk S doc = true)
+    (h1 : S.apply (if add then .addNodeMark pos m else .removeNodeMark pos m) doc = .ok doc')
+    (hi : S.invert (if add then .addNodeMark pos m else .removeNodeMark pos m) doc = .ok inv)
+    (hdis : ∀ n, doc.nodeAt pos = .ok (some n) → add = true → n.marks.length ≤ (m.addToSet S n.marks).length)
+    (hty : ∀ n, doc.nodeAt pos = .ok (some n) → ∀ x ∈ n.marks, ∀ y ∈ n.marks, x.ty = y.ty → x = y)
+    (hsym : ∀ n, doc.nodeAt pos = .ok (some n) → add = true →
+      ∀ x ∈ n.marks, S.excludes m.ty x.ty = true → S.excludes x.ty m.ty = true) :
+    S.apply inv doc' = .ok doc := by
+  suffices h : ∃ doc'', S.apply inv doc' = .ok doc'' by
+    obtain ⟨doc'', h2⟩ := h
+    rw [h2, nodeMark_undo_partial S doc doc' doc'' pos m inv add hn hv ha h1 hi hdis hty hsym h2]
+  -- the forward step, whichever it is: node `n`, new mark set `marks1` (canonical)
+  have fwd : ∃ n u1 marks1, doc.nodeAt pos = .ok (some n) ∧ canonicalMarks S marks1 = true ∧
+      S.recreate n n.attrs marks1 = .ok u1 ∧
+      S.fromReplace doc pos (pos + 1) ⟨[u1], 0, if n.isLeaf then 0 else 1⟩ = .ok doc' ∧
+      marks1 = (if add then m.addToSet S n.marks else m.removeFromSet n.marks) := by
+    cases add with
+    | true =>
+      simp only [if_true] at h1
+      obtain ⟨n, u1, hn1, hu1, hr1⟩ := apply_addNodeMark_parts S doc doc' pos m h1
+      have hnv := nodeAtKids_valid S doc.kids pos n (checkNode_kids hv) hn1
+      exact ⟨n, u1, _, hn1, addToSet_canonical S m _ (Node.marks_canonical hnv), hu1, hr1, rfl⟩
+    | false =>
+      simp only [Bool.false_eq_true, if_false] at h1
+      obtain ⟨n, u1, hn1, hu1, hr1⟩ := apply_removeNodeMark_parts S doc doc' pos m h1
+      have hnv := nodeAtKids_valid S doc.kids pos n (checkNode_kids hv) hn1
+      exact ⟨n, u1, _, hn1, removeFromSet_canonical S m _ (Node.marks_canonical hnv), hu1, hr1, rfl⟩
+  obtain ⟨n, u1, marks1, hn1, hc1, hu1, hr1, hm1⟩ := fwd
+  have hnt := (recreate_spec S n u1 _ _ hu1).1
+  obtain ⟨hcan, hcomp⟩ := node_facts S doc n pos hv ha hn1 hnt
+  have hcanP := (canonicalMarks_iff_canonP S n.marks).1 hcan
+  obtain ⟨ty, a, mk, K, K', rfl, _, _⟩ := fromReplace_elem S doc doc' _ _ _ hr1
+  simp only [Node.kids] at hn
+  obtain ⟨rfl, hv', hn', hat2, hpar, hnt2, a1, hca1, e1, e2, e3⟩ :=
+    after_nodeStep S ty a mk K doc' n u1 pos _ _ hn hv hn1 hc1 hu1 hr1
+  rw [hcomp] at hca1
+  have ha1 : a1 = n.attrs := (Except.ok.inj hca1).symm
+  rw [setFrom_idem_of_canonical S _ hc1] at e3
+  -- the node after the step re-creates with its own attributes
+  have hrec : ∀ marks2, ∃ u2, S.recreate (u1.withKids n.kids) (u1.withKids n.kids).attrs marks2 = .ok u2 := by
+    intro marks2
+    exact recreate_total S _ _ n.attrs marks2 hnt2 (by rw [e1, e2, ha1]; exact hcomp)
+  -- the parent allows the original mark set
+  have hd0 := hv
+  simp only [checkNode_elem, Schema.validContent, Bool.and_eq_true] at hd0
+  have hal := parent_allows S K pos n ty hd0.1.1.2 hd0.2 hn1
+  -- an inverse that is an add-node-mark step re-creating the original set applies
+  have addBack : ∀ x : Mark, x.addToSet S (u1.withKids n.kids).marks = n.marks →
+      ∃ doc'', S.apply (.addNodeMark pos x) (.elem ty a mk (remarkAt K pos u1)) = .ok doc'' := by
+    intro x hx
+    obtain ⟨u2, hu2⟩ := hrec (x.addToSet S (u1.withKids n.kids).marks)
+    have := addNodeMark_applies_iff S ty a mk _ pos x _ u2 hv' hn' hat2 hu2
+    rw [hpar, hx, if_pos hal] at this
+    exact ⟨_, this⟩
+  have remBack : ∀ x : Mark,
+      ∃ doc'', S.apply (.removeNodeMark pos x) (.elem ty a mk (remarkAt K pos u1)) = .ok doc'' := by
+    intro x
+    obtain ⟨u2, hu2⟩ := hrec (x.removeFromSet (u1.withKids n.kids).marks)
+    exact ⟨_, removeNodeMark_applies S ty a mk _ pos x _ u2 hv' hn' hat2 hu2⟩
+  have hn1' : (Node.elem ty a mk K).nodeAt pos = .ok (some n) := hn1
+  cases add with
+  | true =>
+    simp only [if_true] at hi hm1
+    rw [hm1] at e3
+    simp only [Schema.invert, hn1'] at hi
+    split at hi
+    · rename_i hlen
+      split at hi
+      · rename_i x hx
+        simp only [Except.ok.injEq] at hi; subst hi
+        apply addBack x
+        rw [e3]
+        have hxm : x ∈ n.marks := List.mem_of_find?_eq_some hx
+        exact add_displaced_eq S n.marks m x hcanP hlen hx
+          (fun o ho e => hty n hn1 o ho x hxm e) (hsym n hn1 rfl)
+      · rename_i hx
+        simp only [Except.ok.injEq] at hi; subst hi
+        apply addBack m
+        have hsame := add_same_length_none S n.marks m hlen hx
+        rw [e3, hsame, hsame]
+    · simp only [Except.ok.injEq] at hi; subst hi
+      exact remBack m
+  | false =>
+    simp only [Bool.false_eq_true, if_false] at hi hm1
+    rw [hm1] at e3
+    simp only [Schema.invert, hn1'] at hi
+    split at hi
+    · rename_i hin
+      simp only [Except.ok.injEq] at hi; subst hi
+      apply addBack m
+      rw [e3]
+      have hmm : m ∈ n.marks := (isInSet_iff m _).mp hin
+      exact add_remove_eq S n.marks m hcanP hmm (fun o ho e => hty n hn1 o ho m hmm e)
+    · simp only [Except.ok.injEq] at hi; subst hi
+      exact remBack m
 
 end PM.C04
